@@ -58,6 +58,18 @@ def battery(rng=None, size=None):
             q("chords", b, n)
         for sh in ("m7", "dim7", "13", "sus4b9", "6/9", "/G", "m|C"):
             q("chords", "from_shorthand", n + sh)
+    # pairs of calls whose arguments read the same when run together ('Cb' + 'b' / 'C' + 'bb', 'Cb' + '3' / 'C' + 'b3'):
+    # one of each pair is asked in the battery, the other one only ever turns up in the histories before it
+    for (m, f, first, second) in [
+            ("chords", "triad", ("C", "bb"), ("Cb", "b")), ("chords", "seventh", ("C", "bb"), ("Cb", "b")),
+            ("chords", "triad", ("Fb", "b"), ("F", "bb")), ("chords", "seventh", ("Bbb", "b"), ("Bb", "bb")),
+            ("intervals", "third", ("E", "bb"), ("Eb", "b")), ("intervals", "fifth", ("Gb", "b"), ("G", "bb")),
+            ("intervals", "seventh", ("A", "bb"), ("Ab", "b")), ("intervals", "second", ("Db", "b"), ("D", "bb")),
+            ("intervals", "from_shorthand", ("C", "b3"), ("Cb", "3")), ("intervals", "from_shorthand", ("F##", "4"), ("F#", "#4")),
+            ("intervals", "from_shorthand", ("Gb", "b7"), ("Gbb", "7")), ("intervals", "from_shorthand", ("A", "##2"), ("A##", "2"))]:
+        q(m, f, *(first if rng is None else second))
+        if rng is not None and f == "from_shorthand":
+            q(m, f, *(second + (False,)))
     for i in range(12):
         q("notes", "int_to_note", i), q("notes", "int_to_note", i, "b")
     q("intervals", "invert", ["C", "E", "G"])
@@ -524,6 +536,43 @@ def run_siblings(ctx):
                   deep_state(C), mechanism="fresh:" + name)
         ctx.case(("sibling", name))
     ctx.sample({"classes": [s[0] for s in scripts]})
+
+    # writer objects driven through different scripts one after the other: what each produces equals what a cold interpreter
+    # produces for the same script (nothing a MidiTrack / MidiFile wrote before shows in what another one writes)
+    def w1():
+        t = MidiTrack(120)
+        t.set_deltatime(72), t.set_key("G"), t.set_deltatime(33), t.set_meter((3, 4)), t.set_deltatime(5), t.set_tempo(90)
+        t.set_deltatime(9), t.set_track_name("late"), t.set_deltatime(0), t.play_Note(Note("C", 4)), t.set_deltatime(72), t.stop_Note(Note("C", 4))
+        return bytes(t.get_midi_data())
+
+    def w2():
+        t = MidiTrack(120)
+        t.set_key("G"), t.set_meter((3, 4)), t.set_tempo(90), t.set_track_name("late"), t.play_Bar(bar_with(4, 4, 2)), t.play_Bar(bar_with(2, 2))
+        return bytes(t.get_midi_data())
+
+    def w3():
+        t = MidiTrack(60)
+        t.set_deltatime(7), t.set_instrument(3, 40, 2), t.set_deltatime(200), t.set_key("eb"), t.set_meter((6, 8)), t.play_Track(track_with())
+        m = midi_file_out.MidiFile([t])
+        return bytes(m.get_midi_data())
+
+    def w4():
+        t1, t2 = MidiTrack(100), MidiTrack(100)
+        t1.play_Track(track_with()), t2.set_key("eb"), t2.set_meter((6, 8)), t2.play_Bar(bar_with(8, 8, 4))
+        m = midi_file_out.MidiFile()
+        m.tracks = [t1, t2]
+        return bytes(m.get_midi_data())
+    scripts_w = [("low-level events after non-zero delta times", w1), ("the same events at delta zero, then bars", w2),
+                 ("instrument, key and meter after delta times; MidiFile([track])", w3), ("two tracks in one MidiFile", w4)]
+    cold = [forked(ctx, lambda sub, f=f: f()) for (_n, f) in scripts_w]
+    order = [1, 0, 2, 3, 0, 1, 3, 2]
+    for k in order:
+        name, f = scripts_w[k]
+        st, r = ctx.call(f)
+        ctx.check("siblings: what a writer object produces does not depend on what other writer objects did before", st == "ok" and
+                  cold[k] is not None and r == cold[k], {"script": name, "ran_before": [scripts_w[j][0] for j in order[:order.index(k)]]},
+                  None if cold[k] is None else cold[k].hex()[:160], r.hex()[:160] if st == "ok" else repr(r), mechanism="writer-script:%d" % k)
+        ctx.case(("writer-script", k))
 
     # the same for objects that come out of a constructor path *with content*: two results of the same call with equal
     # arguments, one of them then changed in place as deeply as its public attributes reach
